@@ -784,6 +784,12 @@ func streamEnvConc(o *Out, r *rand.Rand, n int, thorough bool) {
 				c := cop{kinds[rr.Intn(len(kinds))], names[rr.Intn(len(names))], int64(rr.Intn(9))}
 				c.apply(shared)
 				if i%50 == 0 {
+					// installing / removing the external lookup is an operation like the others
+					if g == 0 {
+						shared.SetExternalLookup(nil)
+					} else if g == 1 {
+						shared.SetExternalLookup(extLookup{})
+					}
 					shared.GetTypeSymbols()
 					_ = shared.DefineType("T", int64(0))
 					_, _ = shared.Type("T")
